@@ -1813,7 +1813,7 @@ func runScopeChain(c *Ctx, r *Reporter) {
 var ruleLoopVarInit = &Rule{
 	ID:    "R-LOOPVARINIT",
 	Doc:   "in the evaluator every creation of a for loop's variable (scope.set with the LoopVar's name) is preceded by the evaluation of the range operands and followed by none",
-	Floor: 3,
+	Floor: 1, // the creations may be merged into one
 	Run:   runLoopVarInit,
 }
 
@@ -2457,44 +2457,87 @@ func runBlankBefore(c *Ctx, r *Reporter) {
 	if n == 0 {
 		r.Undecided("nlAfter marks no index")
 	}
-	// newAccumulations: a func always starts an accumulation of its own
+	// newAccumulations: a func always starts an accumulation of its own. On the lowered function: every edge of the
+	// statement loop from which the append can no longer be reached in this round is taken only where the statement's
+	// type is known not to be "func" (`if t != last || t == "func" { append }` and `if t == last && t != "func" { continue }`
+	// are the same thing).
 	if nd := FindFunc(pkg, "newAccumulations"); nd != nil {
-		good := false
-		ast.Inspect(nd.Decl.Body, func(nn ast.Node) bool {
-			ifs, ok := nn.(*ast.IfStmt)
-			if !ok {
-				return true
-			}
-			appends := false
-			ast.Inspect(ifs.Body, func(n2 ast.Node) bool {
-				if call, ok := n2.(*ast.CallExpr); ok && isBuiltinCall(info, call, "append") {
-					appends = true
-				}
-				return true
-			})
-			if !appends {
-				return true
-			}
-			var disj func(e ast.Expr)
-			disj = func(e ast.Expr) {
-				e = ast.Unparen(e)
-				if be, ok := e.(*ast.BinaryExpr); ok {
-					if be.Op == token.LOR {
-						disj(be.X)
-						disj(be.Y)
-						return
+		sf := p.SSAFunc(nd.Obj)
+		var appendBlocks []*ssa.BasicBlock
+		for _, b := range sf.Blocks {
+			for _, ins := range b.Instrs {
+				if call, ok := ins.(*ssa.Call); ok {
+					if bi, ok := call.Call.Value.(*ssa.Builtin); ok && bi.Name() == "append" && inCycle(b) {
+						appendBlocks = append(appendBlocks, b)
 					}
-					if be.Op == token.EQL {
-						if sv, ok := constString(info, be.Y); ok && sv == "func" {
-							good = true
+				}
+			}
+		}
+		good := len(appendBlocks) > 0
+		isFuncConst := func(v ssa.Value) bool {
+			k, ok := v.(*ssa.Const)
+			return ok && k.Value != nil && k.Value.Kind() == constant.String && constant.StringVal(k.Value) == "func"
+		}
+		notFunc := func(f condFact) bool {
+			bo, ok := f.Cond.(*ssa.BinOp)
+			if !ok || !(isFuncConst(bo.Y) || isFuncConst(bo.X)) {
+				return false
+			}
+			return (bo.Op == token.NEQ && f.Truth) || (bo.Op == token.EQL && !f.Truth)
+		}
+		nSkips := 0
+		if good {
+			hdr := loopHeaderOf(appendBlocks[0])
+			reachesAppend := func(from *ssa.BasicBlock) bool { // without going through the loop header
+				seen := map[*ssa.BasicBlock]bool{}
+				var walk func(b *ssa.BasicBlock) bool
+				walk = func(b *ssa.BasicBlock) bool {
+					if b == hdr || seen[b] {
+						return false
+					}
+					seen[b] = true
+					for _, ab := range appendBlocks {
+						if ab == b {
+							return true
 						}
 					}
+					for _, sx := range b.Succs {
+						if walk(sx) {
+							return true
+						}
+					}
+					return false
+				}
+				return walk(from)
+			}
+			body := naturalLoop(hdr)
+			for b := range body {
+				if b == hdr || len(b.Instrs) == 0 || !reachesAppend(b) {
+					continue
+				}
+				ifi, ok := b.Instrs[len(b.Instrs)-1].(*ssa.If)
+				if !ok {
+					continue
+				}
+				for idx, sx := range b.Succs {
+					if !body[sx] && sx != hdr || reachesAppend(sx) {
+						continue
+					}
+					// this edge skips the append
+					nSkips++
+					known := false
+					for _, f := range append(valueConds(ifi.Cond, idx == 0), impliedConds(b)...) {
+						if notFunc(f) {
+							known = true
+						}
+					}
+					if !known {
+						good = false
+					}
 				}
 			}
-			disj(ifs.Cond)
-			return true
-		})
-		r.Check(good, nd.QName()+"#func-is-its-own-accumulation", p.Rel(nd.Decl.Pos()), "every func starts an accumulation of its own", "newAccumulations does not start a new accumulation for every func: consecutive functions would be one run and get no blank line between them")
+		}
+		r.Check(good && nSkips > 0, nd.QName()+"#func-is-its-own-accumulation", p.Rel(nd.Decl.Pos()), "every func starts an accumulation of its own", "newAccumulations does not start a new accumulation for every func: consecutive functions would be one run and get no blank line between them")
 	} else {
 		r.Undecided("newAccumulations not found")
 	}
